@@ -552,9 +552,22 @@ def run_translated(groups, workdir, repo=None):
     body += [f"#print axioms NodisVerif.TranslatedTie.{n}" for n in names]
     path = f"{workdir}/Translated.lean"
     open(path, "w").write("\n".join(body) + "\n")
-    with Lock("lake"):
-        rc, so, se2 = sh(["lake", "env", "lean", path], cwd=LEAN, timeout=1200)
-    out = so + se2
+    try:
+        with Lock("lake"):
+            # own process group: on a timeout the lean process (a grandchild) must go too
+            pr = subprocess.Popen(["lake", "env", "lean", path], cwd=LEAN, stdout=subprocess.PIPE, stderr=subprocess.STDOUT,
+                                  text=True, errors="replace", start_new_session=True)
+            try:
+                out, _ = pr.communicate(timeout=int(os.environ.get("VERIF_TRANSLATE_TIMEOUT", "240")))
+            except subprocess.TimeoutExpired:
+                import signal
+                os.killpg(pr.pid, signal.SIGKILL)
+                pr.communicate()
+                raise
+    except subprocess.TimeoutExpired:
+        # e.g. a slip that makes a kernel evaluation diverge: every obligation of the run counts as not proved
+        out = f"{path}:1:1: error: elaboration of the obligations did not finish in time (a changed function makes an evaluation diverge)"
+        out = out.replace(path, "Translated.lean")
     forb = re.compile(r"\b(sorry|admit|native_decide|bv_decide|implemented_by|unsafe)\b|^axiom\s|maxHeartbeats 0\b", re.M)
     ok = []
     for g in groups:
